@@ -21,7 +21,17 @@ NONVACUITY = ['example : headerPE.Conforms', 'example : Reachable', 'example : G
 KISSEL_RE = re.compile(r'Kissel|Photo_Total|Photo_Partial|^ElectronConfig$')
 # driver op -> the C function whose table entry the executable model is asked about (default: the op itself)
 ENTRY_OF = {'Atomic_FactorsM': 'Atomic_Factors', 'StructAdd': 'Crystal_AddCrystal', 'StructAddF': 'Crystal_AddCrystal'}
-NO_ENTRY = {'ProcessError', 'StructCopy', 'StructNew'}          # synthetic / composite ops: plain protocol
+NO_ENTRY = {'ProcessError', 'StructCopy', 'StructNew', 'CAdd', 'CReadFile', 'CList'}          # synthetic / composite ops: plain protocol
+# ops of the C++ driver that change / read the built-in collection through the C API called directly (no wrapper involved): the C driver is sent
+# the line that has the same effect on ITS collection (a one-entry crystal file = one Crystal_AddCrystal; C14's subject), so that both processes
+# stay in the same state and the C answer remains the reference for the wrappers' queries that follow
+C_TWIN = {'CAdd': 'StructAdd', 'CReadFile': 'StructAdd', 'CList': 'Crystal_GetCrystalsList'}
+ROUTES = {'StructAdd': 'the method Crystal::Struct::AddCrystal()', 'StructAddF': 'the free function Crystal::AddCrystal(Struct&)',
+          'CAdd': 'the C API: Crystal_AddCrystal(c, NULL, &error)', 'CReadFile': 'the C API: Crystal_ReadFile(file, NULL, &error)'}
+
+def c_line(l):
+    t = l.split(' ', 1)
+    return (C_TWIN[t[0]] + ' ' + t[1]) if t[0] in C_TWIN and len(t) > 1 else l
 TRUSTED = [
     'Lean 4.33 kernel (lake build of XrlCpp.Props.C18; thorough tier: leanchecker)',
     'axioms allowed: propext, Classical.choice, Quot.sound (audited by #print axioms on every run)',
@@ -203,7 +213,7 @@ class Gen:
                 'NIST names, generated formulas, garbage, 1-byte mutations; every hand-written wrapper: all symbols, Z, NIST/nuclide indices +-3 and names, %d formulas, '
                 'all %d crystals x Miller indices x energies x flags, each line through the Crystal::Struct method AND the free function of namespace Crystal; '
                 'Crystal::Struct copy/new/add scenarios; _process_error on codes -1(NULL),0..7; allocation-failure injection (XRL_ERROR_MEMORY); the built-in crystal array filled until '
-                'Crystal_AddCrystal reports XRL_ERROR_RUNTIME; histories of the ownership model; every line of a Kissel-dependent wrapper (name matches Kissel|Photo_Total|Photo_Partial|ElectronConfig) '
+                'Crystal_AddCrystal reports XRL_ERROR_RUNTIME; sessions in which every wrapper answering from process-wide collection state is asked before and after every mutation route (method, free function, C API Crystal_AddCrystal / Crystal_ReadFile called directly) in every order of the routes; histories of the ownership model; every line of a Kissel-dependent wrapper (name matches Kissel|Photo_Total|Photo_Partial|ElectronConfig) '
                 'a second time on the data configuration with the Kissel table regenerated from data/kissel; all choices from VERIF_SEED=%d') % (
                     'enumerated completely up to %d tuples per wrapper, else a seeded uniform subsample of that size, plus a mostly-valid stratum of the same size (Z in 1..98, inner shells / strong lines, energies above the edges)' % cap, len(forms), len(cat['crystals']), self.ctx.seed)
         return lines, rule
@@ -238,6 +248,41 @@ class Gen:
         s = []
         for i in range(640):
             s.append('%s %s %s E' % ('StructAdd' if i % 2 == 0 else 'StructAddF', xapi.sarg(cat['crystals'][i % len(cat['crystals'])]), xapi.sarg('fill_%04d' % i)))
+        out.append(s)
+        return out
+
+    def state_sessions(self):
+        """sessions on process-wide collection state: every wrapper that answers from the built-in crystal collection (the listing, lookups by
+        name, a query on a looked-up crystal) and the two other list wrappers are asked BEFORE and AFTER every mutation of the collection, and the
+        collection is changed by every route there is: the method, the free function, and the C API called directly (Crystal_AddCrystal,
+        Crystal_ReadFile on the built-in array) - in every order of the four routes.  Each session is one fresh process; `CList` is the C list
+        function called directly inside the C++ process (the two processes are in the same state)."""
+        import itertools
+        cat = self.catalog; rng = self.rng; out = []
+        routes = list(ROUTES)
+        perms = list(itertools.permutations(routes))
+        if self.quick: perms = [p for i, p in enumerate(perms) if i % 2 == self.ctx.seed % 2] + [tuple(routes)]
+        for k, perm in enumerate(perms):
+            src = rng.sample(cat['crystals'], len(perm)); s = []
+            def queries(nn, more):
+                q = ['Crystal_GetCrystalsList E', 'Crystal_GetCrystal %s E' % xapi.sarg(nn)]
+                if more: q += ['CList E', 'Crystal_UnitCellVolume %s E' % xapi.sarg(nn), 'GetCompoundDataNISTList E', 'GetRadioNuclideDataList E', 'Crystal_GetCrystal %s E' % xapi.sarg(rng.choice(cat['crystals']))]
+                return q
+            for j, (r, n) in enumerate(zip(perm, src)):
+                nn = '%s_%s%d' % (n[:12], 'mfar'[routes.index(r)], j)
+                # every third session does not ask before its first mutation (a first query after a mutation is a different program)
+                if not (j == 0 and k % 3 == 2): s += queries(nn, j == 0)
+                s.append('%s %s %s E' % (r, xapi.sarg(n), xapi.sarg(nn)))
+                s += queries(nn, True)
+                if rng.random() < 0.5:
+                    # the same name again through another route: refused (error), the collection and every answer stay as they are
+                    s.append('%s %s %s E' % (rng.choice(routes), xapi.sarg(n), xapi.sarg(nn))); s += queries(nn, False)
+            out.append(s)
+        # the built-in collection filled to its capacity and beyond, through alternating routes, with the listing asked on the way
+        s = ['Crystal_GetCrystalsList E']
+        for i in range(520):
+            s.append('%s %s %s E' % (routes[i % 4], xapi.sarg(cat['crystals'][i % len(cat['crystals'])]), xapi.sarg('full_%04d' % i)))
+            if i in (0, 1, 2, 3, 100, 472, 473, 474, 475, 519): s += ['Crystal_GetCrystalsList E', 'CList E']
         out.append(s)
         return out
 
@@ -454,7 +499,7 @@ class C18:
 
     def three_way(self, b, lines, chunk):
         with ThreadPoolExecutor(max_workers=2) as ex:
-            fc = ex.submit(xdrv.run_driver, [b['cdrv']], lines, None, chunk, 8)
+            fc = ex.submit(xdrv.run_driver, [b['cdrv']], [c_line(l) for l in lines], None, chunk, 8)
             fw = ex.submit(xdrv.run_driver, [b['cppdrv']], lines, None, chunk, 8)
             c = fc.result(); w = fw.result()
         ml = [self.model_line(a, l) for a, l in zip(c, lines)]
@@ -472,14 +517,15 @@ class C18:
         skipped = []
         self.builds = {'': b}
         ctx.routes = dict(lines_with_two_routes=0)
-        def account(line, c_ans, w_ans, m_ans, prefix=None, cfg=''):
-            """one line of the stream; a crystal query is answered through the method and through the free function: both are judged"""
+        def account(line, c_ans, w_ans, m_ans, prefix=None, cfg='', session=None):
+            """one line of the stream; a crystal query is answered through the method and through the free function: both are judged.
+            `session`: the lines of the stateful session up to and including this one - they are the failing input when this line is wrong"""
             if line.startswith('!'): return
             routes = w_ans.split(' || ')
             if len(routes) > 1: ctx.routes['lines_with_two_routes'] += 1
             for ri, wa in enumerate(routes):
-                account1(line, c_ans, wa, m_ans, prefix, cfg, '@free-function' if ri else '')
-        def account1(line, c_ans, w_ans, m_ans, prefix, cfg, route):
+                account1(line, c_ans, wa, m_ans, prefix, cfg, '@free-function' if ri else '', session)
+        def account1(line, c_ans, w_ans, m_ans, prefix, cfg, route, session=None):
             nonlocal n_eval
             n_eval += 1
             if prefix and ('s(null)' in c_ans or c_ans.startswith('died') or (w_ans.startswith('throw other:St11logic_error') and 'construction%20from%20null' in w_ans)):
@@ -498,6 +544,10 @@ class C18:
             if v:
                 if route: v = dict(v, what=v['what'] + ' (through the free function of namespace Crystal)')
                 v = dict(v, key=(prefix + '\n' + line) if prefix else line, got=w_ans[:400], c=c_ans[:400], cfg=cfg)
+                if session:
+                    muts = [l.split(' ')[0] for l in session if l.split(' ')[0] in ROUTES]
+                    v = dict(v, key='@session\n' + '\n'.join(session), session=list(session), cls=(line.split(' ')[0], v['what'].split(':')[0], cfg, muts[-1] if muts else ''),
+                             what=v['what'] + ' (line %d of a session; the built-in collection was changed before by: %s)' % (len(session), ', '.join(ROUTES[m] for m in muts) or 'nothing'))
                 if v['leak_only'] and v.get('threw') and v.get('leak_delta') == 2: leaks.append(v)
                 else: viols.append(v)
         if replay:
@@ -515,16 +565,18 @@ class C18:
                 segs = []; cfg = ''
                 for l in rl:
                     if l.startswith('@config'): cfg = '' if l.split()[-1] == 'shipped' else l.split()[-1]; continue
+                    if l == '@session': segs.append((cfg, [])); continue          # the lines that follow are one stateful session: a fresh process
                     if not segs or segs[-1][0] != cfg: segs.append((cfg, []))
                     segs[-1][1].append(l)
                 for cfg, sl in segs:
+                    if not sl: continue
                     if cfg and cfg not in self.builds:
                         if cfg != 'kissel-real': raise BuildError('replay file names an unknown data configuration: ' + cfg)
                         self.builds[cfg] = self.build_kissel(ctx, b, 'real')
                     c, w, m = self.three_way(self.builds[cfg], sl, None)
                     for i, (l, ca, wa, ma) in enumerate(zip(sl, c, w, m)):
                         print('%s%s\n   C   : %s\n   C++ : %s\n   model: %s' % (l, '   [data configuration: %s]' % cfg if cfg else '', ca[:300], wa[:300], ma))
-                        account(l, ca, wa, ma, sl[i - 1] if i and sl[i - 1].startswith('!') else None, cfg)
+                        account(l, ca, wa, ma, sl[i - 1] if i and sl[i - 1].startswith('!') else None, cfg, sl[:i + 1] if any(x.split(' ')[0] in ROUTES for x in sl[:i]) else None)
         if not replay:
             g = Gen(ctx, b['tables'], b['cdrv'])
             corpus = core_corpus('C18')
@@ -538,6 +590,15 @@ class C18:
                 c, w, m = self.three_way(b, s, None)
                 for i, (l, ca, wa, ma) in enumerate(zip(s, c, w, m)): account(l, ca, wa, ma, s[i - 1] if i and s[i - 1].startswith('!') else None)
             ctx.tick('correspondence', t)
+            # sessions on process-wide collection state: the wrappers' queries before and after every mutation route (failing input = the session)
+            t = time.time()
+            ss = g.state_sessions() + core_sessions('C18')
+            ctx.state_sessions = dict(sessions=len(ss), lines=sum(len(s) for s in ss), mutations={r: sum(1 for s in ss for l in s if l.split(' ')[0] == r) for r in ROUTES},
+                                      list_queries=sum(1 for s in ss for l in s if l.startswith('Crystal_GetCrystalsList ')))
+            with ThreadPoolExecutor(max_workers=6) as ex:
+                for s, (c, w, m) in zip(ss, ex.map(lambda s: self.three_way(b, s, None), ss)):
+                    for i, (l, ca, wa, ma) in enumerate(zip(s, c, w, m)): account(l, ca, wa, ma, None, '', s[:i + 1])
+            ctx.tick('state_sessions', t)
             # second data configuration — the one the property names: the Kissel table regenerated from the raw files.  The shipped
             # data/kissel_pe.dat is empty, so every wrapper of the Kissel family (and ElectronConfig, CS(b)_Photo_Total/_Partial) only
             # ever fails above; here the same lines (and the corpus) are run again where those calls succeed.
@@ -661,6 +722,7 @@ class C18:
     def shrink(self, b, v):
         """shrink integers toward 0 / doubles toward simple values / strings by deletion while the same kind of disagreement persists"""
         line = v['key']
+        if v.get('session'): return self.shrink_session(b, v)
         if line.split(' ')[0] in ('Hist', 'StructAdd', 'StructAddF') or line.startswith('!') or '\n' in line: return line
         b = self.builds.get(v.get('cfg', ''), b)
         def fails(l):
@@ -684,6 +746,21 @@ class C18:
             if not changed: break
         return ' '.join(t)
 
+    def shrink_session(self, b, v):
+        """a stateful session whose LAST line is judged wrong: drop earlier lines one at a time while the last line still fails the same way"""
+        ls = list(v['session']); kind = v['what'].split(' (')[0].split(':')[0]
+        def fails(x):
+            c, w, m = self.three_way(b, x, None)
+            _, vv = self.judge_all(x[-1], c[-1], w[-1], m[-1])
+            return vv is not None and vv['what'].split(':')[0] == kind
+        if not fails(ls): return v['key']
+        i = len(ls) - 2; budget = 80
+        while i >= 0 and budget > 0:
+            cand = ls[:i] + ls[i + 1:]; budget -= 1
+            if fails(cand): ls = cand
+            i -= 1
+        return '@session\n' + '\n'.join(ls)
+
     def report(self, ctx, b, rep, viols, leaks, lsan, dist, samples, n_eval, n_nontriv, replay):
         exit_code = 0
         for v, k, n in rep['known']:
@@ -693,11 +770,11 @@ class C18:
             body = '# violation of C18: the C++ wrapper does not do what the C function does (replay: ./check C18 --replay <this file>)\n'
             seen = set(); k = 0
             for v in viols:
-                cls = (v['key'].split(' ')[0], v['what'].split(':')[0], v.get('cfg', ''))
+                cls = v.get('cls') or (v['key'].split(' ')[0], v['what'].split(':')[0], v.get('cfg', ''))
                 if cls in seen: continue
                 seen.add(cls); k += 1
                 if k > 12: break
-                key = self.shrink(b, v) if k <= 3 else v['key']
+                key = self.shrink(b, v) if (k <= 3 or v.get('session')) else v['key']
                 if v.get('cfg'): key = '@config %s\n%s\n@config shipped' % (v['cfg'], key)
                 body += '# %s%s\n# C        : %s\n# C++      : %s\n# expected : %s\n%s\n' % (v['what'], ' [data configuration %s: Kissel table regenerated from data/kissel]' % v['cfg'] if v.get('cfg') else '',
                                                                                       v.get('c', ''), v['got'], v.get('expected'), key)
@@ -755,6 +832,10 @@ class C18:
                    kissel_family=dict(wrappers=len(kfam), with_successful_calls_on_kissel_real=sum(1 for fn in kfam if okc.get(fn, {}).get('kissel_real', 0) > 0),
                                       successful_calls={fn: okc.get(fn, {}).get('kissel_real', 0) for fn in kfam}),
                    success_path=dict(wrappers_and_ops=len(okc), observed=sum(1 for o in okc.values() if o['shipped'] + o['kissel_real'] > 0), unobserved=unobserved),
+                   state_sessions=dict(getattr(ctx, 'state_sessions', {}), note='sessions (one fresh process each) in which Crystal_GetCrystalsList, Crystal_GetCrystal, Crystal_UnitCellVolume, GetCompoundDataNISTList and '
+                                       'GetRadioNuclideDataList are asked before and after every mutation of the built-in crystal collection, the collection being changed through the method (StructAdd), the free function '
+                                       '(StructAddF) and the C API called directly from the C++ process (CAdd: Crystal_AddCrystal, CReadFile: Crystal_ReadFile on the built-in array), in every order of the four routes '
+                                       '(quick tier: half of the 24 orders, chosen by the seed); CList = the C list function called directly inside the C++ process; the C driver is the reference on every line'),
                    routes=dict(getattr(ctx, 'routes', {}), note='Bragg_angle, Q_scattering_amplitude, F_H_StructureFactor(_Partial), UnitCellVolume, dSpacing: every line through the Crystal::Struct method AND the '
                                'free function of namespace Crystal (keys `<op>@free-function`); AddCrystal: StructAdd (method) / StructAddF (free function) lines'),
                    error_codes=code_tab,
@@ -883,12 +964,29 @@ def failing_theorems(build_log):
     return names
 
 def core_corpus(prop):
+    """the stateless corpus lines (everything before the first `@session` of each file)"""
     d = os.path.join(VERIF, 'corpus'); out = []
     if os.path.isdir(d):
         for f in sorted(os.listdir(d)):
             if f.startswith(prop) and f.endswith('.lines'):
-                out += [l.strip() for l in open(os.path.join(d, f)) if l.strip() and not l.startswith('#')]
+                for l in open(os.path.join(d, f)):
+                    l = l.strip()
+                    if l == '@session': break
+                    if l and not l.startswith('#'): out.append(l)
     return out
+
+def core_sessions(prop):
+    """the stateful corpus sessions: in a corpus file every `@session` line starts one (run in a fresh process, in order)"""
+    d = os.path.join(VERIF, 'corpus'); out = []
+    if os.path.isdir(d):
+        for f in sorted(os.listdir(d)):
+            if f.startswith(prop) and f.endswith('.lines'):
+                cur = None
+                for l in open(os.path.join(d, f)):
+                    l = l.strip()
+                    if l == '@session': cur = []; out.append(cur); continue
+                    if cur is not None and l and not l.startswith('#'): cur.append(l)
+    return [s for s in out if s]
 
 class _Sub:
     """view of a Scratch whose file names carry a tag (second build in the same scratch directory)"""
